@@ -368,7 +368,7 @@ func runC19(p *core.Prog, r *core.Result) {
 
 	// ---- R19.2
 	mapRange := false
-	for _, f := range core.WithAnons(w) {
+	for _, f := range scope { // the writer, its closures and its in-package helpers (printRequirements(out, reqs))
 		core.Instrs(f, func(in ssa.Instruction) {
 			if rg, ok := in.(*ssa.Range); ok {
 				if _, isMap := rg.X.Type().Underlying().(*types.Map); isMap {
@@ -379,15 +379,33 @@ func runC19(p *core.Prog, r *core.Result) {
 		})
 	}
 	sorted := false
-	for _, c := range core.Calls(w) {
+	var customOrder []ssa.CallInstruction
+	var scopeCalls []ssa.CallInstruction
+	for _, f := range scope {
+		scopeCalls = append(scopeCalls, core.Calls(f)...)
+	}
+	for _, c := range scopeCalls {
 		if cal := core.Callee(c); cal != nil {
 			k := core.CalleeKey(cal)
-			if k == "slices.Sorted" || strings.HasPrefix(k, "sort.") || strings.HasPrefix(k, "slices.Sort") {
-				sorted = true
+			switch {
+			case k == "slices.Sorted" || k == "slices.Sort" || k == "sort.Strings":
+				sorted = true // the natural order of strings: total on distinct names
+			case strings.HasPrefix(k, "sort.") || strings.HasPrefix(k, "slices.Sort"):
+				// an order of the writer's own: it fixes the output only if distinct names never compare equal
+				if args := c.Common().Args; len(args) > 0 && comparatorIsNatural(args[len(args)-1]) {
+					sorted = true
+				} else {
+					customOrder = append(customOrder, c)
+				}
 			}
 		}
 	}
-	if !mapRange {
+	for _, c := range customOrder {
+		if !sorted {
+			r.Bad("R19.2", "internal/project.WriteConfigFile#sort-order-total", p.InstrPos(c.(ssa.Instruction)), "requirement names are ordered by a comparison that is not the plain comparison of the names themselves (case folding, a key function, ...): distinct names that compare equal keep the order Go's map iteration gave them, so two writes of one configuration differ")
+		}
+	}
+	if !mapRange && (sorted || len(customOrder) == 0) {
 		r.Check(sorted, "R19.2", "internal/project.WriteConfigFile#sorted-keys", p.Pos(w.Pos()), "requirement names are sorted before they are written", "requirement names are not sorted before they are written")
 	}
 
@@ -901,4 +919,71 @@ func checkListedVersionsLoadable(p *core.Prog, r *core.Result, rule string) {
 		})
 	}
 	r.Floor(rule, n, 1, "versions listed from repository tags")
+}
+
+// comparatorIsNatural: the comparison function handed to a sort compares its operands themselves - every return is
+// strings.Compare / cmp.Compare / cmp.Less of the two parameters, or a < b (a > b) of the parameters or of elements
+// indexed by them - so that it is a total order on distinct strings.
+func comparatorIsNatural(v ssa.Value) bool {
+	v = core.Unwrap(v)
+	var fn *ssa.Function
+	switch x := v.(type) {
+	case *ssa.Function:
+		fn = x
+	case *ssa.MakeClosure:
+		fn, _ = x.Fn.(*ssa.Function)
+	}
+	if fn != nil {
+		if k := core.CalleeKey(fn); k == "strings.Compare" || k == "cmp.Compare" {
+			return true
+		}
+	}
+	if fn == nil || fn.Blocks == nil {
+		return false
+	}
+	plain := func(o ssa.Value) bool {
+		o = core.Unwrap(o)
+		if _, ok := o.(*ssa.Parameter); ok {
+			return true
+		}
+		if ld, ok := o.(*ssa.UnOp); ok && ld.Op == token.MUL {
+			if ia, ok := ld.X.(*ssa.IndexAddr); ok {
+				_, isParam := core.Unwrap(ia.Index).(*ssa.Parameter)
+				return isParam
+			}
+		}
+		return false
+	}
+	n := 0
+	for _, ret := range core.ReturnsOf(fn) {
+		vals := core.RetVals(ret)
+		if len(vals) != 1 {
+			return false
+		}
+		n++
+		switch x := core.Unwrap(vals[0]).(type) {
+		case *ssa.Call:
+			cal := core.Callee(x)
+			if cal == nil {
+				return false
+			}
+			k := core.CalleeKey(cal)
+			if k != "strings.Compare" && k != "cmp.Compare" && k != "cmp.Less" {
+				return false
+			}
+			if len(x.Call.Args) != 2 || !plain(x.Call.Args[0]) || !plain(x.Call.Args[1]) || x.Call.Args[0] == x.Call.Args[1] {
+				return false
+			}
+		case *ssa.BinOp:
+			if x.Op != token.LSS && x.Op != token.GTR || !plain(x.X) || !plain(x.Y) || x.X == x.Y {
+				return false
+			}
+			if b, ok := x.X.Type().Underlying().(*types.Basic); !ok || b.Info()&types.IsString == 0 {
+				return false
+			}
+		default:
+			return false
+		}
+	}
+	return n > 0
 }
